@@ -93,16 +93,32 @@ def parse_config(err):
     return out
 
 
-def surface_key(desc, path_by_name):
-    """which (image file, surface index) a show-config description or attach record names"""
+def surface_key(desc, path_by_name, nsurf):
+    """which (image file, surface index) a show-config description or attach record names, or None when the free text
+    (which no document fixes) cannot be read that way: the file name must occur in it; a file with several surfaces
+    needs a side or slot number next to the word 'side' / 'slot'"""
     for name, p in path_by_name.items():
-        if desc.endswith(name) or (name + ' ') in desc or desc.endswith(p):
-            m = re.search(r'side (\d)', desc)
-            ms = re.search(r'slot\s+(\d+) of', desc)
-            if ms:
+        if name in desc:
+            if nsurf[p] == 1:
+                return (p, 0)
+            ms = re.search(r'slot\D{0,24}?(\d+)', desc)
+            if ms and nsurf[p] > 2:
                 return (p, int(ms.group(1)))
-            return (p, int(m.group(1)) if m else 0)
+            m = re.search(r'side\s*(\d)', desc)
+            if m and nsurf[p] == 2:
+                return (p, int(m.group(1)))
+            return None
     return None
+
+
+def parse_titles(out):
+    """show-titles -> {drive: title}"""
+    t = {}
+    for line in out.decode('latin1').split('\n'):
+        m = re.match(r'^(\d+): (.*)$', line)
+        if m:
+            t[int(m.group(1))] = m.group(2)
+    return t
 
 
 def case(spec):
@@ -161,26 +177,62 @@ def case(spec):
                 res.violation('drive-number-shared', 'two surfaces were attached to the same drive number(s) %r' % dup,
                               {'history': hist[:plen], 'attach_events': attach[:12]}, files, r_.argv)
                 return res
+            # identity of the surface on each drive: from what the drive delivers (every generated surface has a unique
+            # title), and from the description wherever that free text can be read; the two must agree
+            nsurf = {items[p][0]: (511 if items[p][2] is not None else len(items[p][1])) for p in items if p < plen}
+            rt = run([dfsbin] + opts + ['show-titles'], timeout=120)
+            res.execs += 1
+            k = clean_failure_key(rt, (0, 1, 2))
+            if k:
+                res.violation('attach:%s' % k, 'unclean termination of show-titles with %r' % (hist[:plen],), rt.brief(), files, rt.argv)
+                return res
+            by_title = {}
+            for p in items:
+                if p < plen:
+                    path, titles, slots = items[p]
+                    if slots is None:
+                        for i, t in enumerate(titles):
+                            by_title[t] = (path, i)
+                    else:
+                        for sl, t in slots.items():
+                            by_title[t] = (path, sl)
+            content = {d: by_title.get(t.rstrip()) for d, t in parse_titles(rt.out).items()}
             amap = {}
+            unread = 0
             for d, fmt, desc in attach:
-                amap[d] = surface_key(desc, names)
+                kd = surface_key(desc, names, nsurf)
+                kc = content.get(d)
+                if kd is None:
+                    unread += 1
+                if kd is not None and kc is not None and kd != kc:
+                    res.violation('wrong-surface-read:show-titles', 'drive %d was attached as %r but show-titles delivers the '
+                                  'title of %r' % (d, desc, kc), {'history': hist[:plen], 'run': rt.brief()}, files, rt.argv)
+                    return res
+                amap[d] = kc if kc is not None else kd
+            res.add('attach_descriptions_not_readable', unread)
             expected_surfaces = []
             for p in sorted(items):
                 if p < plen:
                     path, titles, slots = items[p]
                     n = 511 if slots is not None else len(titles)
                     expected_surfaces += [(path, i) for i in range(n)]
+            titled = sorted(by_title.values())
             got_surfaces = sorted(v for v in amap.values() if v is not None)
-            if got_surfaces != sorted(expected_surfaces):
-                missing = [x for x in expected_surfaces if x not in got_surfaces][:4]
-                res.violation('surface-not-attached-exactly-once', 'surfaces missing or duplicated: %r' % (missing,),
+            missing = [x for x in titled if x not in got_surfaces][:4]
+            stray = [x for x in got_surfaces if x not in expected_surfaces][:4]
+            if len(attach) != len(expected_surfaces) or len(set(got_surfaces)) != len(got_surfaces) or missing or stray:
+                res.violation('surface-not-attached-exactly-once', 'surfaces missing or duplicated: %d attach events for %d '
+                              'surfaces; missing %r, unexpected %r' % (len(attach), len(expected_surfaces), missing, stray),
                               {'history': hist[:plen], 'attached': len(got_surfaces), 'expected': len(expected_surfaces)},
                               files, r_.argv)
                 return res
-            # ---- I7: --show-config agrees with the attach events
-            cmap = {d: surface_key(desc, names) for d, desc in cfg.items()}
-            if cmap != amap:
-                diff = [d for d in set(cmap) | set(amap) if cmap.get(d) != amap.get(d)][:5]
+            # ---- I7: --show-config agrees with the attach events: the same drives, and the same surface wherever
+            # the description can be read
+            cmap = {d: surface_key(desc, names, nsurf) for d, desc in cfg.items()}
+            diff = [d for d in set(cmap) | set(amap) if (d in cmap) != (d in amap) or
+                    (cmap.get(d) is not None and cmap.get(d) != amap.get(d))][:5]
+            res.add('show_config_lines_compared', sum(1 for v in cmap.values() if v is not None))
+            if diff:
                 res.violation('show-config-disagrees', '--show-config and the attach events disagree for drives %r' % diff,
                               {'history': hist[:plen], 'config': {d: cfg.get(d) for d in diff},
                                'attach': {d: amap.get(d) for d in diff}}, files, r_.argv)
@@ -194,11 +246,12 @@ def case(spec):
             new = sorted(d for d in amap if d not in prev_map)
             if sym not in ('first', 'physical') and new:
                 path = items[plen - 1][0]
-                newd = [d for d in sorted(amap) if amap[d][0] == path]
-                order = [d for d in newd]
-                bysurf = sorted(newd, key=lambda d: amap[d][1])
+                # every new drive belongs to this image (nothing earlier moved, every surface attached once); the
+                # surface index is known for the ones that could be identified
+                ident = sorted((amap[d][1], d) for d in new if amap[d] is not None and amap[d][0] == path)
+                bysurf = [d for _, d in ident]
                 if policy == 'physical':
-                    for d in newd:
+                    for d in new:
                         o = rm.opposite(d)
                         if o in prev_map:
                             res.violation('physical-takes-opposite-side',
@@ -206,18 +259,19 @@ def case(spec):
                                           'drive %d which another image occupies' % (sym, d, o),
                                           {'history': hist[:plen], 'map': {x: amap[x] for x in sorted(amap)[:12]}}, files, r_.argv)
                             break
-                    if len(newd) == 2 and bysurf[1] != bysurf[0] + 2:
+                    bad = [(a, b) for a, b in zip(ident, ident[1:]) if b[1] - a[1] != 2 * (b[0] - a[0])]
+                    if bad and len(new) == 2:
                         res.violation('two-sided-not-n-n2', 'two-sided image at drives %r, not n and n+2' % (bysurf,),
                                       {'history': hist[:plen]}, files, r_.argv)
-                    if len(newd) > 2 and any(b - a != 2 for a, b in zip(bysurf, bysurf[1:])):
+                    elif bad:
                         res.violation('multi-surface-not-consecutive-sides', 'surfaces of %s not at n, n+2, n+4, ...' % sym,
-                                      {'history': hist[:plen], 'first': bysurf[:8]}, files, r_.argv)
+                                      {'history': hist[:plen], 'first': bysurf[:8], 'surface, drive': bad[:3]}, files, r_.argv)
                 else:
                     free = [x for x in range(0, 2000) if x not in prev_map]
-                    want = free[:len(newd)]
-                    if bysurf != want:
+                    want = free[:len(new)]
+                    if new != want or any(d != want[i] for i, d in ident):
                         res.violation('first-not-lowest-free', 'under --drive-first %s landed on %r, lowest free numbers '
-                                      'are %r' % (sym, bysurf[:6], want[:6]), {'history': hist[:plen]}, files, r_.argv)
+                                      'are %r' % (sym, [d for _, d in ident][:6] or new[:6], want[:6]), {'history': hist[:plen]}, files, r_.argv)
             prev_map = dict(amap)
             res.sigs.append('%s|%d' % (' '.join(hist[:plen]), len(amap)))
         # ---- I6: commands addressed to drive k read the surface attached there
@@ -347,4 +401,4 @@ def main(tier, seed, scale=1.0):
     return run_check(PROP, 'exploration', case, specs, tier, seed, rule,
                      extra_cov={'exhaustive': False},
                      assumptions=['which free number the physical policy picks among the admissible ones is not judged',
-                                  'MMB surfaces are identified by slot number in the attach description'])
+                                  'a surface is identified by the unique title it delivers (show-titles) and, where the free-text description can be read, by the file name and side/slot number in it; unformatted MMB slots only by the latter'])
